@@ -251,6 +251,10 @@ func sandbox(ctx *core.Ctx, bin string) {
 		{"EVALRO", "return nosuch.field", "1", "secretkey", "secretarg"},
 		{"EVALNA", "return tile38.call('nosuchcmd')", "1", "secretkey", "secretarg"},
 		{"EVAL", "return 1", "2", "secretkey"},
+		// calls without keys / without arguments that write INTO the tables they were given
+		{"EVAL", "KEYS[1] = ARGV[1] KEYS.stash = ARGV[1] return 1", "0", "secretarg"},
+		{"EVALRO", "ARGV[1] = 'secretarg' ARGV.stash = 'secretarg' return 1", "0"},
+		{"EVALNA", "KEYS[1] = 'secretkey' return 1", "0"},
 	}
 	for _, lk := range leakers {
 		c.Do(lk...)
@@ -266,6 +270,14 @@ func sandbox(ctx *core.Ctx, bin string) {
 			}
 		}
 		rep, _ := c.Do("EVAL", `return tostring(ARGV[1]) .. tostring(KEYS[1])`, "0")
+		if rep.Str == "nilnil" {
+			// the same through the other variants, and members that are not array slots
+			for _, kind := range []string{"EVALRO", "EVALNA"} {
+				if r2, _ := c.Do(kind, `return tostring(ARGV[1]) .. tostring(KEYS[1]) .. tostring(KEYS.stash) .. tostring(ARGV.stash)`, "0"); r2.Str != "nilnilnilnil" && !r2.IsErr() {
+					rep.Str = kind + ": " + r2.Str
+				}
+			}
+		}
 		if rep.Str != "nilnil" {
 			ctx.Violation("sandbox:call-globals-survive:next-eval", fmt.Sprintf("after %q the next EVAL with no keys/args sees %q", lk, rep.Str), nil)
 		}
